@@ -56,3 +56,67 @@ Example c06_nonvacuous :
   ttimes_from 0 ops /\
   snd (trun (tinit 0) ops) = [OTok k; OTok (TSha ip2 2); OAcc true; OAcc false; OAcc false].
 Proof. vm_compute. repeat split; discriminate. Qed.
+
+(* ------------------------------------------------------------------ the executable checker and the clauses
+   [c06_ok] (run/Run_Token.v) is the checker that is evaluated on the flags OBSERVED from the real
+   TokenStore (2 = a token was returned, 1 = accepted, 0 = refused).  The implementation's tokens are
+   opaque; a script names a token by the index of the checkout that returned it, and the harness
+   presents exactly the bytes that checkout returned: operation #j = [RCi ip' n] presents, from ip',
+   the token that operation #n returned. *)
+From BT Require Import run.Run_Token proofs.Checker_Token_Facts.
+
+(* soundness: if the checker raises no alarm on the observed flags [obs] then the three C06 clauses
+   hold of the OBSERVED trace, for every issue/presentation pair of the script: same IP and at most
+   10 min after issue -> accepted; 30 min or more after issue -> refused; other IP -> refused.
+   Moreover there is one flag per operation, every checkout returned a token, and every presentation
+   of unissued bytes / of a token of the wrong length was refused. *)
+Theorem c06_checker_sound : forall (ops : list (Z * rop)) (obs : list N),
+  c06_ok ops obs = None ->
+  length obs = length ops /\
+  (forall n j ti tj ip ip' b,
+     nth_error ops n = Some (ti, RCo ip) ->
+     nth_error ops j = Some (tj, RCi ip' n) ->
+     nth_error obs j = Some b ->
+     (ip' = ip -> tj <= ti + 600000000000 -> b = 1%N) /\
+     (ti + 1800000000000 <= tj -> b = 0%N) /\
+     (ip' <> ip -> b = 0%N)) /\
+  (forall j t ip b, nth_error ops j = Some (t, RCo ip) -> nth_error obs j = Some b -> b = 2%N) /\
+  (forall j t ip b, nth_error ops j = Some (t, RCiRaw ip) \/ nth_error ops j = Some (t, RCiLen ip) ->
+     nth_error obs j = Some b -> b = 0%N).
+Proof. exact c06_ok_sound. Qed.
+
+(* and conversely: the checker raises no alarm  iff  every observed flag satisfies its clause
+   ([c06_obs_ok all o b] is, by definition: b = 2 for a checkout; b = 0 for [RCiRaw]/[RCiLen];
+   for o = (tj, RCi ip' n): for every (ti, RCo ip) at index n of [all] the three implications above) *)
+Theorem c06_checker_decides_clauses : forall (ops : list (Z * rop)) (obs : list N),
+  c06_ok ops obs = None <-> Forall2 (c06_obs_ok ops) ops obs.
+Proof. exact c06_ok_iff_spec. Qed.
+
+(* the checker accepts the model's own observations, on every script with non-decreasing time stamps
+   whose presentations name earlier checkouts (scripts are generated that way; for a forward reference
+   the model presents junk and the checker's 10-minute clause, which only compares the two time stamps,
+   would demand acceptance: [c06_forward_ref_alarm]) *)
+Theorem c06_checker_accepts_model : forall (t0 : Z) (ops : list (Z * rop)),
+  rtimes_from t0 ops ->
+  (forall j tj ip' n ti ip,
+     nth_error ops j = Some (tj, RCi ip' n) -> nth_error ops n = Some (ti, RCo ip) -> (n < j)%nat) ->
+  c06_ok_model t0 ops = None.
+Proof. exact c06_ok_model_silent. Qed.
+
+Print Assumptions c06_checker_sound.
+Print Assumptions c06_checker_decides_clauses.
+Print Assumptions c06_checker_accepts_model.
+
+(* non-vacuity: on the history above (in script form) the checker accepts the model's flags and flags,
+   at the right index, a late refusal, an acceptance at 30 min and an acceptance from another IP *)
+Example c06_checker_nonvacuous :
+  let ops := [CO 599000000000 false 167772161; CO 600000000000 true 1;
+              CI 1199000000000 false 167772161 0; CI 1199000000000 true 1 0;
+              CI 2399000000000 false 167772161 0] in
+  rtimes_from 0 ops /\
+  map acc_of (model_obs 0 ops) = [2; 2; 1; 0; 0]%N /\
+  c06_ok ops [2; 2; 1; 0; 0]%N = None /\
+  c06_ok ops [2; 2; 0; 0; 0]%N = Some 2%N /\
+  c06_ok ops [2; 2; 1; 1; 0]%N = Some 3%N /\
+  c06_ok ops [2; 2; 1; 0; 1]%N = Some 4%N.
+Proof. vm_compute. repeat split; discriminate. Qed.
